@@ -590,3 +590,32 @@ fn check_clone(o: &Outcome, src: &Snap, v: &mut Vec<Fail>) {
         fail(v, "C20", format!("clone hashed {} keys for {} entries", h, src.len));
     }
 }
+
+/// C16, at the line where the injected panic fired: when the panic came from the `mutate` closure or
+/// the `retain` predicate itself, the memory bound still holds and no entry other than those the
+/// predicate already rejected has been lost.
+pub fn check_panic(o: &Outcome) -> Vec<Fail> {
+    let mut v = Vec::new();
+    let (pre, post) = match (&o.pre, &o.post) {
+        (Some(a), Some(b)) if a.full && b.full && b.walk_err.is_none() => (a, b),
+        _ => return v,
+    };
+    if let (Some((kind, _)), Op::On { op, .. }) = (o.injected, &o.line.op) {
+        if matches!(kind, Kind::Closure | Kind::Pred) {
+            if post.cur > post.max {
+                fail(&mut v, "C16", format!("after a panic in the closure of `{}` current_size {} exceeds max_size {}", op.text(), post.cur, post.max));
+            }
+            let rejected: Vec<u64> = o.log.events.iter().filter_map(|e| if let Ev::DropK(t) = e { Some(*t) } else { None }).collect();
+            for e in &pre.ord {
+                let still = post.ord.iter().any(|x| x.k.tok == e.k.tok);
+                if !still && !rejected.contains(&e.k.tok) {
+                    fail(&mut v, "C16", format!("after a panic in the closure of `{}` entry {} is lost although it was not rejected", op.text(), e.k.id));
+                }
+            }
+            if matches!(kind, Kind::Closure) && (post.ord != pre.ord || post.cur != pre.cur) {
+                fail(&mut v, "C16", format!("a panic inside the mutate closure changed the cache (`{}`)", op.text()));
+            }
+        }
+    }
+    v
+}
